@@ -448,14 +448,17 @@ class Verifier:
         # initial values (arrays: snapshot of the element function) for frame / relation clauses
         from .values import SArr as _SArr, snap as _snap, snap_finite as _sf
         olds = {}
-        for k, v in st.env.items():
+        inputs_alias = {}
+        for k, v in list(st.env.items()):
             if isinstance(v, _SArr):
                 o = _SArr(v.shape, _snap(v), v.kind)
                 o.finite = _sf(v)
                 olds['old_' + k] = o
-                olds[k + '_input'] = v      # the caller's array itself (a later read sees writes)
+                inputs_alias['__input_' + k] = v   # the caller's array itself (sees later writes)
             else:
                 olds['old_' + k] = v
+        # aliases live in the state so that path forks (which clone stores) keep them coherent
+        st.env.update(inputs_alias)
         normal = 0
         case_tag = ','.join(f'{k}={v!r}' for k, v in case.items())
         for pst, oc in ex.exec_block(found, st):
@@ -469,6 +472,8 @@ class Verifier:
                 o = ob(f'ensures:{label}', text)
                 est = State(dict(pst.env))
                 est.env.update(olds)
+                for k in inputs_alias:
+                    est.env[k[len('__input_'):] + '_input'] = pst.env[k]
                 est.facts, est.pc = list(pst.facts), list(pst.pc)
                 gex = Executor(self.reg, consts)
                 gex.goal_mode = True
